@@ -68,6 +68,12 @@ CLAIMED = {
         "Solver licence-limit errors are discarded; Z3 reports no strategy so its capacity clause is skipped; pre-states that are not jointly feasible are discarded as unreachable.",
         "DESIGN.md 3 C10",
     ),
+    "C12": (
+        "Hypothesis-generated boundary-deadline scheduler inputs for every enforcing policy; returned plans plus up to 200 feasible points of the captured Gurobi models (solution-pool enumeration decoded through the scheduler's own variables); generated end-to-end planner runs",
+        "Admission predicate (hopeless => cancel / unplaced, never placed; feasible => not cancelled), start+runtime <= deadline on the returned plan and on enumerated feasible points of the ILP / TetriSched-Gurobi models, completion <= deadline in planner runs with exact runtimes. Exploration; the feasible set is sampled, not exhausted.",
+        "Licence-limited model sizes; ILP in task-by-task mode; integer start variables are capped for enumeration (sampling restriction only).",
+        "DESIGN.md 3 C12",
+    ),
     "C13": (
         "Hypothesis-generated scheduler inputs (reachable states on single-worker pools) with an independent tie-tolerant fit check per unplaced task",
         "For every generated invocation of EDF/FIFO/LSF: each unplaced task must not fit any pool once higher-or-equal priority placements are accounted; placed tasks are jointly feasible. Exploration.",
